@@ -242,6 +242,46 @@ def run(chk, model_ok=True):
     r = e2e.ncall(lambda: sess.get("1.3.6.1"))
     if r != ("ok", 7):
         fail(f"sync SnmpSession.get returned {r!r}", "sync get")
+    # get_many of the sync client on generated replies: the dict is built from what the AGENT returned (names need not
+    # be those asked for, nor spelled the same way)
+    for it in range(30 if quick else 800):
+        k = rng.choice([0, 1, 2, 3, 5])
+        names = [values.gen_arcs(rng) for _ in range(k)]
+        tl = [values.gen_value(rng, allow_real=False) for _ in range(k)]
+        vbs_ = [ber.varbind(n, t[0]) for n, t in zip(names, tl)]
+
+        def script2(op, req, vbs_=vbs_):
+            return [peer.response(req, vbs_)]
+        sess._sock = e2e.SockShim(conv, script2)
+        asked = rng.choice([["1.3.6.1.2.1.1.5.0", "1.3.6.1.2.1.1.6.0"], ["1.3.6.1.2.1.1.05.0"], [values.dotted(n) for n in names] or ["1.3.6"]])
+        r = e2e.ncall(lambda: sess.get_many(asked))
+        want = expected_get_many(names, [t[1] for t in tl])
+        n_e2e += 1
+        if not (r[0] == "ok" and same(r[1], want[1])):
+            fail(f"sync SnmpSession.get_many({asked}): expected {e2e.canon(want[1])[:100]}, got {(e2e.canon(r[1]) if r[0] == 'ok' else repr(r))[:100]}",
+                 f"topy getmany {ber.pdu(2, 1, 0, 0, vbs_).hex()}")
+    sess._sock = e2e.SockShim(conv, script)
+    # a call that ended with an exception (after skipping a datagram) leaves the session as it was: the next reply,
+    # arriving within the configured timeout, is delivered (blocking socket, real timing, judged on the agent's send times)
+    from props import c18
+    for peer_h in (e2e.Peer("v2c"), e2e.Peer("v1")):
+        for kind_first in ("n", "g"):
+            before = [[(3, "s"), (4, kind_first)]]
+            sched = [(6, "r")]
+            ok_runs = 0
+            for _ in range(3):
+                r, el, actual = c18.run_sync(peer_h, sched, before)
+                if actual and actual[-1] > c18.T_TICKS - 1.2:
+                    ok_runs += 1       # the agent ran late: nothing can be concluded
+                    continue
+                if r[:2] == ("ok", 4242):
+                    ok_runs += 1
+            n_e2e += 1
+            if ok_runs == 0:
+                fail(f"sync {peer_h.label}: after a call that skipped a datagram and ended with "
+                     f"{'NoSuchInstance' if kind_first == 'n' else 'SnmpDecodeError'}, the next call's reply (sent {sched[0][0] * c18.TICK:.2f}s after "
+                     f"the request, timeout {c18.T_TICKS * c18.TICK:.2f}s) was not delivered: {r!r:.60} (3 runs)",
+                     f"# sync history {peer_h.label} {kind_first}")
     mode["v"] = "silent"
     for f, nm in ((lambda: sess.get("1.3.6.1"), "get"), (lambda: sess.get_many(["1.3.6.1"]), "get_many")):
         r = e2e.ncall(f)
